@@ -77,7 +77,7 @@ MODE_THEOREMS = {
 # modules whose builders have reported and which are imported by lean/UrcuVerif.lean
 INTEGRATED = {"UrcuVerif.Props.SrcRead", "UrcuVerif.Props.SrcSync", "UrcuVerif.Props.SrcStack", "UrcuVerif.Props.SrcQueue",
               "UrcuVerif.Props.SrcDefer", "UrcuVerif.Props.SrcFutex", "UrcuVerif.Props.SrcPoll", "UrcuVerif.Props.SrcWq",
-              "UrcuVerif.Props.SrcCallRcu"}
+              "UrcuVerif.Props.SrcCallRcu", "UrcuVerif.Props.SrcLfht"}
 
 
 def mode_theorems(mode):
